@@ -239,9 +239,12 @@ class PyFormulas:
                 a = pyfe.src(e.args[0])
                 if "volumes" in self.defs or True:
                     return S_("V" + ("i" if a.startswith("src") else "j" if a.startswith("dst") else "?"))
-            if isinstance(e, ast.Attribute) and e.attr in ("surface", "distance") and isinstance(e.value, ast.Call) and \
-                    pyfe.call_name(e.value).endswith("get_edge"):
-                args = [pyfe.src(a) for a in e.value.args]
+            ev = e.value if isinstance(e, ast.Attribute) else None
+            if isinstance(ev, ast.Name) and len(self.defs.get(ev.id, ())) == 1:
+                ev = self.defs[ev.id][0]          # edge = system.space.get_edge(...); edge.surface
+            if isinstance(e, ast.Attribute) and e.attr in ("surface", "distance") and isinstance(ev, ast.Call) and \
+                    pyfe.call_name(ev).endswith("get_edge"):
+                args = [pyfe.src(a) for a in ev.args]
                 if sorted(args) == ["dst_position_index", "src_position_index"]:
                     return S_("S" if e.attr == "surface" else "d")
             if s == "system.space.cell_vol":
